@@ -93,6 +93,13 @@ def cases(tier, seed):
                     if o is not None:
                         out.append(mk(tree_two(L, o), "two", L, o, h, d))
             if o is not None:
+                # the replication filters: whatever is searched for (under-replicated, unique, everything), a reported
+                # group holds identical files only - also when its replica count already decides the verdict
+                for fi, flt in enumerate((["--rf-under", "3"], ["--rf-under", "4"], ["--unique"], ["--rf-over", "0"], ["--rf-over", "2"],
+                                          ["--rf-under", "2", "--isolate"])):
+                    for d in (disks if not quick else [disks[(fi + len(out)) % len(disks)]]):
+                        out.append(mk(tree_plain(L, o), "plain", L, o, "metro", d, flt))
+                        out.append(mk(tree_two(L, o), "two", L, o, "metro", d, flt))
                 for d in disks:
                     # prefix and/or suffix covering the whole file
                     for extra in (["--max-prefix-size", "1048576"], ["--max-suffix-size", "1048576"],
@@ -575,3 +582,6 @@ def finish(stats, tier):
 
 
 RULE += ' Since rounds 10-11 also: classes of different length sharing their first 4096 bytes, in both arrival orders; one run over two devices pinned to different kinds (scratch fs + loop-mounted ext4), lengths around 4 KiB / 16 KiB, files of interest on either device.'
+
+
+RULE += " Since round 12 also: every tree x replication filter {--rf-under 3, --rf-under 4, --unique, --rf-over 0, --rf-over 2, --rf-under 2 --isolate}."
